@@ -169,6 +169,18 @@ def gen_expr(rnd, names):
         wrap = rnd.choice(['(lambda: {})()', '[{} for _ in [0]][0]', '({} if k else 0)', '(x := {})', '[{}][0]', '{{"a": {}}}["a"]', '({},)[0]',
                            '(lambda f: f())(lambda: {})', 'next(iter([{}]))', 'max([{}], key=lambda v: 0)'])
         return wrap.replace('{}', inner), ('wrapped',) + tag
+    if r < 0.62 and rnd.random() < 0.25:
+        # frame walking: no dunder, no forbidden name - a running generator's frame leads back to the evaluator's own globals.
+        # `c` is a list-valued AST key (the carrier); variants differ in the chain, the way builtins are reached and what is done with them
+        back = '.f_back' * rnd.randint(1, 4)
+        via = rnd.choice([".f_globals.get('builtins')", ".f_builtins.get('open') and c[0].gi_frame.f_back.f_back.f_globals.get('builtins')",
+                          ".f_globals.get('ast')", ".f_globals.get('builtins')", ".f_globals.get('builtins')"])
+        act = rnd.choice([".open('/etc/hostname').read()", ".open('/etc/hostname')", ".__import__('os')" if False else ".eval('1+1')", ".compile('1', 's', 'eval')",
+                          ".exec('x=1')", ".input()", ".exit()", ".open('/etc/hostname').read()"])
+        if 'ast' in via:
+            act = rnd.choice([".parse('1')", ".sys.modules.get('os').getcwd()", ".sys.exit()"])
+        e = ("[c.clear(), c.append((1 for q in iter(lambda c=c: c.append(c[0].gi_frame" + back + via + "), 0))), next(c[0]), c[1]" + act + ", c.clear()][3]")
+        return e, ('frame-trick', back.count('f_back'))
     if r < 0.62:
         if rnd.random() < 0.4:
             # attribute navigation written in a *format string*: no Attribute node for the safety walk to see
@@ -398,6 +410,72 @@ def check_parser_probe(expr, kind):
     return None, info
 
 
+NVALS = ['abc', 'abc', 'abc', 'h\xe9llo', '\u03bbb', '\u65e5\u672c', 'a\U0001f600']
+
+
+def check_parser_positive(expr, nval):
+    """a safe expression through a real parse: it must evaluate (the parse succeeds) and, where the value is not a string (strings are
+    evaluated again until they stop changing), equal plain eval with the same names"""
+    import tatsu
+    if '`' in expr or '\n' in expr:
+        return None, {'skip': 'backtick'}
+    g = "start: n=/\\S+/ k=`3` c=`" + expr + "` $ ;\n"
+    info = {}
+    try:
+        want = ('val', eval(expr, {'__builtins__': {k: getattr(builtins, k) for k in PURE | {'bool'}}}, {'n': nval, 'k': 3}))  # noqa: S307 - generated safe expression
+    except Exception:
+        return None, info
+    try:
+        m = tatsu.compile(g, name='C17p')
+    except Exception as e:
+        info['skip'] = f'compile: {type(e).__name__}'
+        return None, info
+    try:
+        with watchdog(10):
+            res = m.parse(nval)
+    except CaseTimeout:
+        return None, info
+    except Exception as e:
+        return dict(bucket=f'parser:positive:raises:{type(e).__name__}', oracle='the values that safe expressions produce are unaffected (the parse evaluates the constant)',
+                    expression=expr, grammar=g, input=nval, expected=repr(want[1])[:100], observed=f'{type(e).__name__}: {str(e)[:150]}'), info
+    got = res.get('c') if isinstance(res, dict) else None
+    info['value'] = repr(got)[:60]
+    if not isinstance(want[1], str) and (got != want[1] or type(got) is not type(want[1])):
+        return dict(bucket='parser:positive:value', oracle='the value of a safe expression equals plain eval with the same names', expression=expr, grammar=g, input=nval,
+                    expected=repr(want[1])[:100], observed=repr(got)[:100]), info
+    return None, info
+
+
+def check_parser_carrier(expr):
+    """a real parse in which the AST has a list-valued key c"""
+    import tatsu
+    from tatsu.exceptions import TatSuException
+    if '`' in expr or '\n' in expr:
+        return None, {'skip': 'backtick'}
+    g = "start: c+=/[a-z]/ n='bc' k=`3` r=`" + expr + "` $ ;\n"
+    info = {}
+    try:
+        m = tatsu.compile(g, name='C17c')
+    except Exception as e:
+        info['skip'] = f'compile: {type(e).__name__}'
+        return None, info
+
+    def run():
+        with watchdog(10):
+            return m.parse('abc')
+    res, exc, events, exits = MON.run(run)
+    if events:
+        return dict(bucket=f'parser:carrier:event:{events[0]}', oracle='no file/import/exec/compile/input/os event is attributed to a grammar constant',
+                    expression=expr, grammar=g, events=events), info
+    if exits or isinstance(exc, SystemExit):
+        return dict(bucket='parser:carrier:exit', oracle='a grammar constant never exits the process', expression=expr, grammar=g), info
+    if exc is not None and not isinstance(exc, (TatSuException, Blocked, CaseTimeout)):
+        return dict(bucket=f'parser:carrier:raises:{type(exc).__name__}', oracle='a rejected expression is left as text or reported as a semantic failure',
+                    expression=expr, grammar=g, observed=f'{type(exc).__name__}: {str(exc)[:150]}'), info
+    info['outcome'] = 'ok' if exc is None else type(exc).__name__
+    return None, info
+
+
 def check_history(secret_name, secret_value, probe):
     """a name bound by an earlier parse must not be readable by a later, unrelated one"""
     import tatsu
@@ -441,9 +519,23 @@ def run_shard(sh, n):
         info = {}
         probe = False
         nval = 'abc'
-        if tag == ('safe',) and route == 'direct':
-            d = check_positive(expr, {'n': 'abc', 'k': 3})
+        if tag == ('safe',) and route in ('direct', 'parser:const'):
+            nval = rnd.choice(NVALS)
             cls.append('positive')
+            if not nval.isascii():
+                cls.append('AST value beyond Latin-1' if max(nval) > '\xff' else 'AST value non-ASCII')
+            if route == 'direct':
+                d = check_positive(expr, {'n': nval, 'k': 3})
+            else:
+                route = 'parser:positive'
+                d, info = check_parser_positive(expr, nval)
+        elif tag[0] == 'frame-trick':
+            if rnd.random() < 0.5:
+                route = 'direct'
+                d, info = check_direct(expr, {'n': 'abc', 'k': 3, 'c': [1]})
+            else:
+                route = 'parser:carrier'
+                d, info = check_parser_carrier(expr)
         elif tag[0] == 'format-trick' and len(tag) == 3:
             route = 'direct'
             nval = tag[2]
@@ -482,7 +574,7 @@ def run_shard(sh, n):
         sh.case((expr, route, nval), nontriv, cls, sample=dict(expression=expr, route=route, info={k: v for k, v in info.items() if k != 'skip'}))
         if d is not None:
             sh.fail(d['bucket'], dict(expr=expr, route=route, shadow=expr if route.startswith('shadow') else None,
-                                      sname=sname if route.startswith('shadow') else None, probe=probe, nval=nval, positive='positive' in cls), d)
+                                      sname=sname if route.startswith('shadow') else None, probe=probe, nval=nval, positive='positive' in cls, carrier=tag[0] == 'frame-trick'), d)
     # two-step histories (first, while this process has evaluated nothing else)
     if sh.index == 0:
         for sname, sval, probe in [('password', 'hunter2', '{password}'), ('token', 'tk9', 'token'), ('secret', 's3cr3t', 'x{secret}y'), ('pw', 'zz9', '{pw!r}')]:
@@ -498,13 +590,22 @@ def replay(case):
     r = case.get('route')
     if r == 'history':
         return check_history(case['name'], case['value'], case['probe'])
+    if r == 'parser:positive':
+        d, _ = check_parser_positive(case['expr'], case.get('nval', 'abc'))
+        return d
+    if r == 'parser:carrier':
+        d, _ = check_parser_carrier(case['expr'])
+        return d
+    if r == 'direct' and case.get('carrier'):
+        d, _ = check_direct(case['expr'], {'n': 'abc', 'k': 3, 'c': [1]})
+        return d
     if r == 'direct':
         d, _ = check_direct(case['expr'], {'n': case.get('nval', 'abc'), 'k': 3})
         positive = case.get('positive')
         if positive is None:   # replay files written before the key existed
             positive = has_dunder_attr(case['expr']) is False and not impure_calls(case['expr'], {'n', 'k'}) and 'format' not in case['expr']
         if d is None and positive:
-            d = check_positive(case['expr'], {'n': 'abc', 'k': 3})
+            d = check_positive(case['expr'], {'n': case.get('nval', 'abc'), 'k': 3})
         return d
     if r in ('shadow', 'shadow-direct'):
         sname = case.get('sname') or next((s for s in SHADOW_NAMES if case['expr'].startswith(s) or '{' + s in case['expr'] or s + '(' in case['expr']), 'open')
